@@ -27,7 +27,7 @@ def check(ctx: Ctx) -> str:
     # aliases: self._x = self._queue.<method>
     aliases: dict[str, tuple[str, str]] = {}
     lock_name = None
-    for n in ast.walk(post.node):
+    for n in ast.walk(post.nnode):  # normal form: a local naming self._queue is inlined
         if isinstance(n, ast.Assign) and isinstance(n.targets[0], ast.Attribute) and ast.unparse(n.targets[0].value) == "self":
             v = n.value
             if isinstance(v, ast.Attribute) and isinstance(v.value, ast.Attribute) and ast.unparse(v.value.value) == "self":
@@ -50,7 +50,20 @@ def check(ctx: Ctx) -> str:
     def accesses(fn: ast.AST) -> list[tuple[ast.AST, str, bool]]:
         """(node, structure, is_mutation) for each access to shared state in fn."""
         out = []
+        # locals that only name one of the shared containers (`mapping = self._mapping`)
+        local_alias = {a_.targets[0].id: a_.value.attr for a_ in ast.walk(fn) if isinstance(a_, ast.Assign) and len(a_.targets) == 1 and isinstance(a_.targets[0], ast.Name)
+                       and isinstance(a_.value, ast.Attribute) and ast.unparse(a_.value.value) == "self" and a_.value.attr in shared}
+        for a_ in ast.walk(fn):  # ... also bound pairwise: `mapping, queue = self._mapping, self._queue`
+            if isinstance(a_, ast.Assign) and len(a_.targets) == 1 and isinstance(a_.targets[0], ast.Tuple) and isinstance(a_.value, ast.Tuple) and len(a_.targets[0].elts) == len(a_.value.elts):
+                for t_, v_ in zip(a_.targets[0].elts, a_.value.elts):
+                    if isinstance(t_, ast.Name) and isinstance(v_, ast.Attribute) and ast.unparse(v_.value) == "self" and v_.attr in shared:
+                        local_alias[t_.id] = v_.attr
         for n in ast.walk(fn):
+            if isinstance(n, ast.Name) and n.id in local_alias and isinstance(n.ctx, ast.Load):
+                par = getattr(n, "_parent", None)
+                mut = (isinstance(par, ast.Attribute) and isinstance(getattr(par, "_parent", None), ast.Call) and par.attr in MUTATORS) or (isinstance(par, ast.Subscript) and isinstance(par.ctx, (ast.Store, ast.Del)))
+                out.append((n, local_alias[n.id], mut))
+                continue
             if isinstance(n, ast.Attribute) and ast.unparse(n.value) == "self":
                 if n.attr in shared:
                     par = getattr(n, "_parent", None)
@@ -108,7 +121,10 @@ def check(ctx: Ctx) -> str:
         ctx.need(prim in ci.methods, f"LRUCache.{prim} vanished")
 
     ctx.rule("R2", "shape of the locked primitives: get = lookup then move-to-end; set = remove-or-evict(capacity reached, popleft) then append + store; del = remove from both")
-    gi = ci.methods["__getitem__"]
+    from ..normalize import norm as _norm
+
+    # (normal forms: locals that only name self._mapping / self._queue / a popped key are inlined)
+    gi = _norm(ci.methods["__getitem__"])
     src = ast.unparse(gi)
     rd = [n for n in ast.walk(gi) if isinstance(n, ast.Subscript) and ast.unparse(n.value) == "self._mapping" and isinstance(n.ctx, ast.Load)]
     ctx.check(bool(rd), "get:lookup", "utils:LRUCache.__getitem__", "lookup", "__getitem__ no longer reads self._mapping[key] (KeyError for a miss)", f"src/jinja2/utils.py:{gi.lineno}")
@@ -121,7 +137,7 @@ def check(ctx: Ctx) -> str:
         gts = astq.guard_texts(gi, ap[0])
         okg = all(("self._queue[-1] != key" in g and pol) or ("self._queue[-1] == key" in g and not pol) for g, pol in gts if "_queue" in g)
         ctx.check(okg, "get:touch-guard", "utils:LRUCache.__getitem__", "touch guard", f"the move-to-end is guarded by {gts}, expected only `self._queue[-1] != key`", f"src/jinja2/utils.py:{gi.lineno}")
-    si = ci.methods["__setitem__"]
+    si = _norm(ci.methods["__setitem__"])
     tests = [n for n in ast.walk(si) if isinstance(n, ast.Compare) and "capacity" in ast.unparse(n)]
     ok = False
     for tcmp in tests:
@@ -130,9 +146,7 @@ def check(ctx: Ctx) -> str:
             ok = True
     ctx.check(ok, "set:capacity-test", "utils:LRUCache.__setitem__", "capacity test", f"eviction is triggered by {[ast.unparse(t) for t in tests]}, expected len(self._mapping) == / >= self.capacity (cache may exceed its capacity or evict early)", f"src/jinja2/utils.py:{si.lineno}",
               detail={"tests": [ast.unparse(t) for t in tests]})
-    from ..normalize import norm as _norm
-
-    ev = [n for n in ast.walk(_norm(si)) if isinstance(n, ast.Delete) and "self._mapping[" in ast.unparse(n)]  # a local naming the evicted key is inlined
+    ev = [n for n in ast.walk(si) if isinstance(n, ast.Delete) and "self._mapping[" in ast.unparse(n)]  # a local naming the evicted key is inlined
     evok = bool(ev) and any(("_popleft" in ast.unparse(e) or "popleft()" in ast.unparse(e)) for e in ev)
     ctx.check(evok, "set:evict-oldest", "utils:LRUCache.__setitem__", "evict from the left", "eviction no longer deletes the mapping entry of the key popped from the left (oldest) end of the queue", f"src/jinja2/utils.py:{si.lineno}")
     if ev and tests:
@@ -150,11 +164,11 @@ def check(ctx: Ctx) -> str:
     # position must happen whenever the key is present - under no further condition
     ctx.check(bool(rm2) and [g for g, pol in gts2 if pol] == ["key in self._mapping"] and not [g for g, pol in gts2 if not pol], "set:dedupe", "utils:LRUCache.__setitem__", f"old position removed under {gts2}",
               f"overwriting a key must remove its old queue position whenever the key is present (guards found: {gts2}); since the append is unconditional any extra condition leaves a duplicate in the recency queue, and a later eviction removes a recently used entry or pops a key that is already gone", f"src/jinja2/utils.py:{si.lineno}", detail={"guards": [f"{'' if p else 'not '}{g}" for g, p in gts2]})
-    di = ci.methods["__delitem__"]
+    di = _norm(ci.methods["__delitem__"])
     dm = [n for n in ast.walk(di) if isinstance(n, ast.Delete) and "self._mapping[key]" in ast.unparse(n)]
     dq = [c for c in astq.calls(di) if isinstance(c.func, ast.Attribute) and c.func.attr in ("_remove", "remove")]
     ctx.check(bool(dm) and bool(dq), "del:both", "utils:LRUCache.__delitem__", "delete from both structures", "__delitem__ must delete the key from the mapping and from the queue", f"src/jinja2/utils.py:{di.lineno}")
-    cl = ci.methods["clear"]
+    cl = _norm(ci.methods["clear"])
     cls_ = ast.unparse(cl)
     ctx.check("self._mapping.clear()" in cls_ and "self._queue.clear()" in cls_, "clear:both", "utils:LRUCache.clear", "clear both structures", "clear() must empty both the mapping and the queue", f"src/jinja2/utils.py:{cl.lineno}")
 
